@@ -5,7 +5,10 @@ definition (the table in the Operator class docstring), written here independent
     result[i] = F(inputs at i, i-1, i+1, scalar argument)        for every observation i, NaN included,
 the result is stored under the output name (created if absent), every other column, coordinate and observation is
 unchanged.  The loop invariants are generated from the same formula ("map loops").  Operators built on APPLY
-(Inverter, Rectifier, Square, Diode, Sign, Thresholder) are verified with Apply.execute inlined and their own lambda.
+(Inverter, Rectifier, Square, Diode, Sign, Identity, Inverser, Thresholder) are verified with Apply.execute inlined and
+their own lambda.  Second batch: Shift (y(t) = x(t - k), NaN outside), ShiftRight / ShiftLeft / ShiftRev through it,
+ScalarDivider (x * (1 / k)), ScalarRevDivider (k * (1 / x)) and the read-only aggregates Sum, Averager (folds over the
+non-NaN values), Min, Max.
 The expression parser / RPN evaluator (string rewriting, recursion over unbounded strings) is bounded only."""
 import z3
 from pyvc.kinds import *
@@ -115,12 +118,75 @@ def register(reg):
                      requires=inputs_ok(["af_input"]), modifies=MOD,
                      ensures=[("documented-pointwise-value", "all(same(result[r], %s) for r in range(0, %s))" % (f, N))] + common()))
         funcs.append(OPS + cls + ".execute")
+    # ---- second batch: shifts, quotients by a scalar, identity / inverse / threshold, aggregates
+    SHIFTV = "(NAN if (r - number < 0 or r - number >= %s) else %s)" % (N, U % "(r - number)")
+    reg.add(Spec(OPS + "Shift.execute", dict(self="Shift", track="Track", af_input="str", number="int", af_output="str"), "list[float]",
+                 requires=inputs_ok(["af_input"]), modifies=MOD, locals=dict(temp="list[float]"),
+                 loops={"1": LoopSpec(inv=["len(temp) == " + N, "all(same(temp[r], %s) for r in range(0, i))" % SHIFTV])},
+                 ensures=[("documented-pointwise-value", "all(same(result[r], %s) for r in range(0, %s))" % (SHIFTV, N))] + common()))
+    funcs.append(OPS + "Shift.execute")
+    for cls, k in (("ShiftRight", "1"), ("ShiftLeft", "-1")):
+        v = "(NAN if (r - (%s) < 0 or r - (%s) >= %s) else %s)" % (k, k, N, U % ("(r - (%s))" % k))
+        reg.add(Spec(OPS + cls + ".execute", dict(self=cls, track="Track", af_input="str", af_output="str"), "list[float]",
+                     requires=inputs_ok(["af_input"]), modifies=MOD,
+                     ensures=[("documented-pointwise-value", "all(same(result[r], %s) for r in range(0, %s))" % (v, N))] + common()))
+        funcs.append(OPS + cls + ".execute")
+    reg.add(Spec(OPS + "ShiftRev.execute", dict(self="ShiftRev", track="Track", af_input="str", number="int", af_output="str"), "list[float]",
+                 requires=inputs_ok(["af_input"]), modifies=MOD,
+                 ensures=[("documented-pointwise-value", "all(same(result[r], %s) for r in range(0, %s))"
+                           % ("(NAN if (r + number < 0 or r + number >= %s) else %s)" % (N, U % "(r + number)"), N))] + common()))
+    funcs.append(OPS + "ShiftRev.execute")
+    APPLY2 = {"Identity": (U % "r", []),
+              # 1 / x raises ZeroDivisionError on a zero value (unlike the binary '/' operator, which yields NaN): required away
+              "Inverser": ("1.0 / %s" % (U % "r"), ["all(isnan(col(track, af_input, r)) or col(track, af_input, r) != 0 for r in range(0, %s))" % N])}
+    for cls, (f, extra) in APPLY2.items():
+        reg.add(Spec(OPS + cls + ".execute", dict(self=cls, track="Track", af_input="str", af_output="str"), "list[float]",
+                     requires=inputs_ok(["af_input"]) + extra, modifies=MOD,
+                     ensures=[("documented-pointwise-value", "all(same(result[r], %s) for r in range(0, %s))" % (f, N))] + common()))
+        funcs.append(OPS + cls + ".execute")
+    reg.add(Spec(OPS + "ScalarDivider.execute", dict(self="ScalarDivider", track="Track", af_input="str", number="float", af_output="str"), "list[float]",
+                 requires=inputs_ok(["af_input"]) + ["isnan(number) or number != 0"], modifies=MOD,
+                 ensures=[("documented-pointwise-value", "all(same(result[r], %s * fdiv(1.0, number)) for r in range(0, %s))" % (U % "r", N))] + common()))
+    funcs.append(OPS + "ScalarDivider.execute")
+    reg.add(Spec(OPS + "ScalarRevDivider.execute", dict(self="ScalarRevDivider", track="Track", af_input="str", number="float", af_output="str"), "list[float]",
+                 requires=inputs_ok(["af_input"]) + ["all(isnan(col(track, af_input, r)) or col(track, af_input, r) != 0 for r in range(0, %s))" % N],
+                 modifies=MOD,
+                 ensures=[("documented-pointwise-value", "all(same(result[r], (1.0 / %s) * number) for r in range(0, %s))" % (U % "r", N))] + common()))
+    funcs.append(OPS + "ScalarRevDivider.execute")
+    reg.add(Spec(OPS + "Thresholder.execute", dict(self="Thresholder", track="Track", af_input="str", number="float", af_output="str"), "none",
+                 requires=inputs_ok(["af_input"]) + ["not isnan(number)"], modifies=MOD,
+                 ensures=[("documented-pointwise-value", "all(same(col(track, af_output, r), (NAN if isnan(%s) else (%s if %s < number else number))) for r in range(0, %s))"
+                           % (U % "r", U % "r", U % "r", N))] + [c for c in common() if c[0] not in ("length", "stored")]))
+    funcs.append(OPS + "Thresholder.execute")
+    # aggregates (read-only): XS is a ghost copy of the input column, so that the folds can be written over a list
+    AGG_REQ = ["twf(track)", "not reserved(af_input) and hasname(track, af_input)", "len(XS) == " + N,
+               "all(same(XS[r], col(track, af_input, r)) for r in range(0, %s))" % N]
+    AP = dict(track="Track", af_input="str")
+    reg.add(Spec(OPS + "Sum.execute", dict(self="Sum", **AP), "float", ghost=dict(XS="list[float]"), requires=AGG_REQ,
+                 loops={"1": LoopSpec(inv=["not isnan(somme)", "somme == sumnn(XS, i)"])},
+                 ensures=[("sum-of-the-values-that-are-numbers", "not isnan(result) and result == sumnn(XS, %s)" % N)]))
+    reg.add(Spec(OPS + "Averager.execute", dict(self="Averager", **AP), "float", ghost=dict(XS="list[float]"),
+                 requires=AGG_REQ + ["countnn(XS, %s) > 0" % N],      # no number at all: ZeroDivisionError (0 / 0)
+                 loops={"1": LoopSpec(inv=["not isnan(mean)", "mean == sumnn(XS, i)", "count == countnn(XS, i)"])},
+                 ensures=[("mean-of-the-values-that-are-numbers", "not isnan(result) and result == fdiv(sumnn(XS, %s), countnn(XS, %s))" % (N, N))]))
+    reg.add(Spec(OPS + "Min.execute", dict(self="Min", **AP), "float", requires=AGG_REQ[:2],
+                 loops={"1": LoopSpec(inv=["not isnan(minimum) and minimum <= 1e+300", "all(not (col(track, af_input, q) < minimum) for q in range(0, i))",
+                                           "minimum == 1e+300 or any(same(minimum, col(track, af_input, q)) for q in range(0, i))"])},
+                 ensures=[("below-every-value", "all(not (col(track, af_input, q) < result) for q in range(0, %s))" % N),
+                          ("one-of-the-values-or-the-initial-bound", "result == 1e+300 or any(same(result, col(track, af_input, q)) for q in range(0, %s))" % N)]))
+    reg.add(Spec(OPS + "Max.execute", dict(self="Max", **AP), "float", requires=AGG_REQ[:2],
+                 loops={"1": LoopSpec(inv=["not isnan(maximum) and maximum >= -1e+300", "all(not (col(track, af_input, q) > maximum) for q in range(0, i))",
+                                           "maximum == -1e+300 or any(same(maximum, col(track, af_input, q)) for q in range(0, i))"])},
+                 ensures=[("above-every-value", "all(not (col(track, af_input, q) > result) for q in range(0, %s))" % N),
+                          ("one-of-the-values-or-the-initial-bound", "result == -1e+300 or any(same(result, col(track, af_input, q)) for q in range(0, %s))" % N)]))
+    funcs += [OPS + c + ".execute" for c in ("Sum", "Averager", "Min", "Max")]
     reg.specfuncs["NANV"] = sf_nan
     FUNCTIONS[:] = funcs
 
 
 FUNCTIONS = []
-USES_LIB = False
+USES_LIB = True
 ASSUMPTIONS = ["operator objects: inputs are feature names present in the track (not x, y, z, t, idx), the track has at least one observation",
                "division is real division (uninterpreted fdiv); NaN propagates as in IEEE; no rounding (A-REAL)",
-               "the expression parser, makeRPN, __evaluateRPN / __applyOperation dispatch and the aggregate operators are bounded only"]
+               "Inverser / ScalarRevDivider: no input value is 0, ScalarDivider: the scalar is not 0 (1 / 0 raises ZeroDivisionError there, unlike the binary '/' operator); Averager: at least one value is a number",
+               "the expression parser, makeRPN, __evaluateRPN / __applyOperation dispatch, the circular shifts, powers, modulo, the transcendental functions and the remaining aggregates are bounded only"]
